@@ -1,6 +1,11 @@
-mod dense;
-mod props;
+#[macro_use]
 mod util;
+mod blas_shim;
+mod dense;
+mod oracle;
+mod problem;
+mod solve;
+mod props;
 
 fn main() {
     util::install_quiet_panic_hook();
